@@ -258,6 +258,7 @@ theorem scalar_noC0 (c : EncCfg) (hc : PlainCfg c) (kr : Bool) (fuel : Nat) (pfx
     cases fuel <;> (simp only [encVal]; simp only [atomsOK] at hok
                     exact bracket_noC0 _ (by intro x hx; simp only [List.mem_map] at hx; obtain ⟨y, hy, rfl⟩ := hx; exact timeText_noC0 c _ (all_noC0 hok y hy)))
   | fallback t => cases fuel <;> (simp only [encVal]; exact hq t)
+  | textm t fb => cases fuel <;> (simp only [encVal]; split <;> exact hq _)
   | group items => exact absurd rfl (hng items)
 theorem vals_zero (c : EncCfg) (hc : PlainCfg c) (kr : Bool) : ValStmt c kr 0 := by
   intro v pfx hok _
